@@ -23,6 +23,7 @@ import (
 	"fmt"
 	"math/big"
 	"os"
+	"sort"
 	"strings"
 	"time"
 
@@ -337,6 +338,9 @@ func (mw *muxWorld) commitBlock(w *world) []string {
 			cls = "system"
 		}
 		mw.res.Count("mux:class:" + cls)
+		if cls == "ok" && ba == "0" && bb != "0" {
+			mw.res.Count("mux:drained-to-exactly-zero")
+		}
 		ho := cls == "ok"
 		if cls == "ok" || cls == "failed" {
 			key := hx(sigTx.Signature.PublicKey[:]) + "|" + hx(sigTx.Signature.Signature[:]) + "|" + hx(sigTx.Blob)
@@ -355,7 +359,7 @@ func (mw *muxWorld) commitBlock(w *world) []string {
 		}
 		mw.res.Count("mux:origin:" + o + ":sig=" + b01(sg))
 		id := hash.NewFromBytes(raw)
-		lines = append(lines, fmt.Sprintf("tx %s %d %s %s %s %d %d %s %d %s %s %s %d %d %s %s",
+		lines = append(lines, fmt.Sprintf("mtx %s %d %s %s %s %d %d %s %d %s %s %s %d %d %s %s",
 			id.Hex(), len(raw), b01(env), b01(sg), b01(txok), signer, nonce, famt, fgas, kind, b01(ho), cls, nb, na, bb, ba))
 		// Handler effects (transfers) and fee flows change balances of other accounts; the model treats
 		// balances as free (witness): report the balance the implementation holds now for every signer.
@@ -388,12 +392,25 @@ func (mw *muxWorld) commitBlock(w *world) []string {
 	mw.res.Count("mux:blocks")
 	mw.res.CountN("mux:txs", len(txs))
 	mw.queue, mw.queueHo = nil, nil
-	// Balances after the block (fees were paid out to nobody: no validators/entities registered, so
-	// they go to the common pool; transfers moved funds): hand the model the implementation's values.
+	// The committed state after the block, read from the real state of replica V for every signer and for
+	// the transfer recipient: `nonce never decreases for any account across the whole history` is evaluated
+	// on these observations (model driver, op `obs`); balances are witnesses (fees flow to the common pool,
+	// transfers and burns move funds).
+	idxs := map[int]signature.PublicKey{}
+	var order []int
 	for pk, i := range w.idx {
 		if i < 1000 {
-			_, b := mw.committed(mw.v, pk)
-			lines = append(lines, fmt.Sprintf("setbal %d %s", i, b))
+			idxs[i] = pk
+			order = append(order, i)
+		}
+	}
+	sort.Ints(order)
+	for _, i := range order {
+		n, b := mw.committed(mw.v, idxs[i])
+		lines = append(lines, fmt.Sprintf("obs %d %d %s", i, n, b))
+		mw.res.Count("mux:obs")
+		if b == "0" {
+			mw.res.Count("mux:obs:zero-balance")
 		}
 	}
 	return lines
@@ -465,6 +482,7 @@ func (mw *muxWorld) init(w *world) []string {
 		_ = total.Add(&acct.General.Balance)
 		lines = append(lines, fmt.Sprintf("acct %d %s %s", i, f[3], f[4]))
 	}
+	w.idx[transferPK] = 900 // the default transfer recipient is observed too
 	doc.Staking.TotalSupply = total
 	_ = doc.Staking.Parameters.MinTransactBalance.FromUint64(mw.mtb)
 	doc.Staking.Parameters.FeeSplitWeightVote = *quantity.NewFromUint64(1)
@@ -512,6 +530,39 @@ func genMuxCase(r *hlib.Rng, nops int, flipAll bool, disk bool, res *hlib.Result
 		}
 	}
 	inBlock := 0
+	bySigner := make([][]string, ns)
+	drains := 0
+	// drain: signer i sends its whole balance (to exactly zero after the fee) to signer j, j refunds i, and then
+	// every transaction i ever signed is submitted again (handlers touching the account record itself).
+	drain := func() {
+		i := r.Intn(ns)
+		j := (i + 1 + r.Intn(ns)) % ns
+		d, rf := mk(), mk()
+		fa := []string{"0", "1", "7"}[r.Intn(3)]
+		m := "staking.Transfer"
+		if r.Chance(1, 5) {
+			m = "staking.Burn"
+		}
+		ops = append(ops, "commit",
+			fmt.Sprintf("sign %s %d tx A CUR %s 0 %s to=%d amt=ALL", d, i, fa, m, j), "submit "+d+" 1", "commit")
+		nonce[i]++
+		if j != i {
+			ops = append(ops, fmt.Sprintf("sign %s %d tx A CUR 0 0 staking.Transfer to=%d amt=%d", rf, j, i, 500+r.Intn(5000)), "submit "+rf+" 1", "commit")
+			nonce[j]++
+			bySigner[j] = append(bySigner[j], rf)
+		} else {
+			// a single signer cannot be refunded by another one: genesis-funded recipient only
+			ops = append(ops, "commit")
+		}
+		for _, n := range bySigner[i] {
+			ops = append(ops, "submit "+n+" 1")
+		}
+		ops = append(ops, "submit "+d+" 1", "commit")
+		bySigner[i] = append(bySigner[i], d)
+		accepted = append(accepted, d)
+		drains++
+		res.Count("mux:gen:drain-refund-replay")
+	}
 	for len(ops) < nops {
 		k := r.Intn(100)
 		si := r.Intn(ns)
@@ -526,12 +577,17 @@ func genMuxCase(r *hlib.Rng, nops int, flipAll bool, disk bool, res *hlib.Result
 					m = "LONG"
 				}
 			}
-			ops = append(ops, fmt.Sprintf("sign %s %d tx A %d %s %d %s", n, si, nonce[si], fa, fg, m), "submit "+n+" 1")
+			extra := ""
+			if r.Chance(1, 2) {
+				extra = fmt.Sprintf(" to=%d amt=%d", r.Intn(ns), r.Intn(2000))
+			}
+			ops = append(ops, fmt.Sprintf("sign %s %d tx A %d %s %d %s%s", n, si, nonce[si], fa, fg, m, extra), "submit "+n+" 1")
 			if strings.HasPrefix(m, "staking.") {
 				nonce[si]++
 				accepted = append(accepted, n)
 			}
 			all = append(all, n)
+			bySigner[si] = append(bySigner[si], n)
 			res.Count("mux:gen:fresh")
 		case k < 40 && len(accepted) > 0:
 			ops = append(ops, "submit "+accepted[r.Intn(len(accepted))]+" 1")
@@ -591,9 +647,13 @@ func genMuxCase(r *hlib.Rng, nops int, flipAll bool, disk bool, res *hlib.Result
 			}
 			ops = append(ops, "submit "+n+" 1")
 			res.Count("mux:gen:garbage")
-		case k < 84 && len(all) > 0:
+		case k < 82 && len(all) > 0:
 			ops = append(ops, "check "+all[r.Intn(len(all))])
 			res.Count("mux:gen:checktx+estimategas")
+		case k < 88:
+			drain()
+			inBlock = 0
+			continue
 		default:
 			ops = append(ops, "commit")
 			inBlock = 0
@@ -605,6 +665,9 @@ func genMuxCase(r *hlib.Rng, nops int, flipAll bool, disk bool, res *hlib.Result
 			continue
 		}
 		inBlock++
+	}
+	if drains == 0 && r.Chance(2, 3) {
+		drain()
 	}
 	ops = append(ops, "commit", "restart")
 	for _, n := range accepted {
